@@ -141,7 +141,7 @@ PROPS = {
         "groups": [{"name": "C10", "quick": 4000, "thorough": 150000},
                    # remote pages over the simulator (pages named by URL, on other hosts, URLs that differ in letter case only)
                    {"name": "C02", "quick": 600, "thorough": 20000}],
-        "rule": "page chains of 0..18 embedded pages (Collection/OrderedCollection, items on the root and/or pages, empty pages with varying bias, absent/null/single-value items, wrong page types, chains ending in a non-https reference, a non-object, a non-collection or an object that would need re-fetching) x request-size sequences (one large request, constant small requests, random sizes incl. 0) x start offsets; "
+        "rule": "page chains of 0..18 embedded pages (Collection/OrderedCollection, items on the root and/or pages, empty pages with varying bias and layouts with runs of exactly 1..4 empty pages between full ones (the root counting), absent/null/single-value items, the key of the other flavour (items vs orderedItems) present as a decoy, totalItems of every JSON type on roots and pages, first on pages and next on roots, wrong page types, chains ending in a non-https reference, a non-object, a non-collection or an object that would need re-fetching) x request-size sequences (one large request, constant small requests, random sizes incl. 0, sizes 0 / 1 / total-1 / total / total+1 / 2*total) x start offsets x scripts in which the latest continuation is asked again and older continuations are asked after newer ones exist; "
                 "non-trivial = at least three pages visited; distinct by op content",
         "trusted": ["encoding/json decoding (typed tree shipped to the model)",
                     "remote pages: in this check every `next` that would need the network fails deterministically (non-https / non-object); remote and cyclic chains are covered by the theorems (arbitrary `load`) and by the simulator-based checks (C02/C09)"],
@@ -155,7 +155,7 @@ PROPS = {
         "groups": [{"name": "C11", "quick": 4000, "thorough": 150000},
                    # feeds over simulator-served actors and collections, through splicer.NewSplicer and the UI
                    {"name": "C07", "quick": 128, "thorough": 4000, "workers": 16}],
-        "rule": "0..4 sources of 0..7 items (newest-first with ties, or unsorted; missing timestamps; empty and nil sources) over exact-delivery synthetic containers x scripts of 1..6 harvests (sizes 0..6, start offsets, 'again' = the same position asked twice); "
+        "rule": "0..4 sources of 0..7 items, one of them sometimes 15..44 items long (newest-first with ties, or unsorted; missing timestamps; empty and nil sources; the same item listed by two sources) over exact-delivery synthetic containers, flat or paged like a collection (every page a container of its own, continuation = page + offset); timestamp classes: whole seconds, differences below one second, equal instants written in different zones, far past / far future around and before the zero time, every source carrying the same few instants; x scripts of 1..6 harvests (sizes 0..6 and 1 / total-1 / total / total+1, start offsets, 'again' = the same position asked twice, 'old' = an earlier continuation asked after newer ones exist, 'par' = four concurrent askers); "
                 "non-trivial = at least two sources and three delivered items; distinct by op content",
         "trusted": ["slice aliasing in Splicer.clone (shared backing arrays) is modelled by value semantics; 'again' steps re-harvest old positions to exercise it",
                     "containers deliver exactly the requested amount unless exhausted (C10 theorem harvest_cont)"],
